@@ -12,6 +12,11 @@ from props.c15 import cols, blank_text, gen_row
 from runner import PropertyCheck, Failure, Disagreement
 
 
+def xml_ok(c):
+    n = ord(c)
+    return n in (9, 10, 13) or 0x20 <= n <= 0xD7FF or 0xE000 <= n <= 0xFFFD or 0x10000 <= n <= 0x10FFFF
+
+
 def drawing_chars():
     """characters that have a property (ASCII table or glyph table), read from the generated tables"""
     out = set()
@@ -101,6 +106,7 @@ class Check(PropertyCheck):
                 if s.strip():
                     out.append(s + "\n" + "-" * k)
         out += [gen_text(self.rng, draw) for _ in range(n)]
+        out += [gen.zoo(self.rng, legend=False, tags=False) for _ in range(n // 5)]
         return out
 
     def correspondence(self):
@@ -162,8 +168,9 @@ class Check(PropertyCheck):
                     inside.add((c2, qy))
                     c2 += cols(ch, wd)
                 quotes.add((c2, qy))
+            # characters XML cannot represent are dropped from text (C02): they cannot be "shown"
             must = set(k for k, ch in grid.items() if k not in quotes and ch != "\0" and not ws.get(ord(ch), False)
-                       and (k in inside or ch not in draw))
+                       and xml_ok(ch) and (k in inside or ch not in draw))
             if must:
                 self.nontrivial.add(t)
             if i < 3:
@@ -185,6 +192,8 @@ class Check(PropertyCheck):
                         break
                     col += 1
                 for ch in e.text:
+                    while (col, int(cy)) in grid and not xml_ok(grid[(col, int(cy))]) and grid[(col, int(cy))] != ch:
+                        col += cols(grid[(col, int(cy))], wd)      # a dropped character inside the label
                     if grid.get((col, int(cy))) != ch:
                         bad = ("text shows %r where the input has %r at column %d" % (ch, grid.get((col, int(cy))), col), e)
                         break
